@@ -4,7 +4,9 @@ Decides: R10.1 dispatch over the 8 documented ordered pairs with the swapped
 orders forwarding to the computed ones; R10.2 non-negativity (sign domain);
 R10.3 method forms and agreement of Point.distance with distance(Point, Point)
 (polynomial normal form under the root); R10.4 R-CROSS on the distance code
-(no normalised cross product of possibly parallel directions).
+(no normalised cross product of possibly parallel directions); R10.5 the value
+does not depend on the length / sign of a direction vector; R10.6 no branch of
+distance() or its helpers decides on the exact value of a computed float.
 That the value equals the Euclidean minimum, and "zero exactly when they
 intersect", are NOT decided.
 """
@@ -15,7 +17,7 @@ from typing import Dict, List, Optional, Tuple
 
 from ..astutil import assigned_names, const_num, txt
 from ..model import AnalysisError, walk_local
-from ..rcross import check_cross
+from ..rcross import check_cross, module_closure
 from ..types import S, show
 
 DOCUMENTED = [("Point", "Point"), ("Point", "Line"), ("Line", "Point"), ("Line", "Line"), ("Point", "Plane"),
@@ -41,6 +43,11 @@ def _nonneg(ctx, fi, e: ast.AST, depth=0) -> Tuple[bool, str]:
         tg = ctx.types.call_targets.get((fi.qual, id(e)), set())
         if tg == {fi.qual}:
             return True, "recursive distance(...) (induction on the dispatch)"
+        group = getattr(ctx, "_c10_group", None)
+        if group and tg and tg <= group:
+            ctx._c10_used |= tg
+            return True, "call of %s within distance()'s own helpers (every return of each is checked; induction)" % "/".join(
+                sorted(q.split(":")[-1] for q in tg))
         if isinstance(e.func, ast.Attribute) and e.func.attr in ("length", "__abs__") and tg and all(
                 q.endswith("Vector.length") for q in tg):
             ok, why = _length_nonneg(ctx)
@@ -88,6 +95,24 @@ def run(ctx, res):
     )
     repo, eng = ctx.repo, ctx.types
     fi = repo.fn("distance", "calc.distance")
+    closure = module_closure(ctx, fi)
+    ctx._c10_group = {f.qual for f in closure}
+    ctx._c10_used = set()  # helpers whose value is returned by distance (directly or through each other)
+    # operands re-bound only among themselves (`a, b = b, a`): then a parameter's type says which operand it holds
+    rebinds_only = True
+    for n_ in walk_local(fi.node):
+        if isinstance(n_, (ast.Assign, ast.AugAssign, ast.AnnAssign, ast.For, ast.NamedExpr)):
+            tg_ = n_.targets if isinstance(n_, ast.Assign) else [n_.target]
+            for t_ in tg_:
+                for nm in ast.walk(t_):
+                    if isinstance(nm, ast.Name) and nm.id in fi.params[:2]:
+                        v_ = getattr(n_, "value", None)
+                        okv = isinstance(n_, ast.Assign) and (
+                            (isinstance(v_, ast.Name) and v_.id in fi.params[:2]) or
+                            (isinstance(v_, ast.Tuple) and all(isinstance(x_, ast.Name) and x_.id in fi.params[:2] for x_ in v_.elts)))
+                        if not okv:
+                            rebinds_only = False
+    signature: Dict[Tuple[str, str], tuple] = {}
     computed: Dict[Tuple[str, str], ast.Return] = {}
     computed_all: List[Tuple[Tuple[str, str], ast.Return]] = []
     for ta, tb in DOCUMENTED:
@@ -121,6 +146,11 @@ def run(ctx, res):
             for r in rets:
                 computed[(ta, tb)] = r
                 computed_all.append(((ta, tb), r))
+            if len(rets) == 1 and rebinds_only and isinstance(rets[0].value, ast.Call) and len(rets[0].value.args) == 2 \
+                    and all(isinstance(a_, ast.Name) and a_.id in fi.params[:2] for a_ in rets[0].value.args) \
+                    and rets[0].value.args[0].id != rets[0].value.args[1].id:
+                signature[(ta, tb)] = (id(rets[0]), tuple(
+                    show(eng.ctx_node_types.get((fi.qual, bound, id(a_)), frozenset())) for a_ in rets[0].value.args))
             res.ob("R10.1", fi.where(rets[0]), lab, True, "computed by its own branch (%d return(s))" % len(rets))
         # R10.2 on every reached return
         for r in rets:
@@ -130,12 +160,35 @@ def run(ctx, res):
                 res.violation("R10.2", fi, r, "%s may be negative: %s" % (lab, why), construct=lab + " sign")
     for ta, tb in (("Point", "Line"), ("Point", "Plane"), ("Line", "Plane")):
         both = (ta, tb) in computed and (tb, ta) in computed
+        sg = signature.get((ta, tb))
+        if both and sg is not None and sg == signature.get((tb, ta)) and set(sg[1]) == {ta, tb}:
+            res.ob("R10.1", fi.where(computed[(ta, tb)]), "{%s, %s}" % (ta, tb), True,
+                   "the operands are exchanged so that both orders reach the same `%s` with operand types %s" % (
+                       txt(computed[(ta, tb)].value)[:40], sg[1]))
+            continue
         res.ob("R10.1", fi.where(), "{%s, %s}" % (ta, tb), not both, "one order forwards to the other")
         if both:
             res.violation("R10.1", fi, computed[(tb, ta)],
                           "distance computes (%s, %s) and (%s, %s) in separate branches; symmetry is no longer by construction"
                           % (ta, tb, tb, ta), construct="mixed pair {%s, %s} computed twice" % (ta, tb))
     ctx.require(res, "R10.1", len(DOCUMENTED), 8, "documented pairs")
+    done2 = set()
+    while True:
+        todo2 = [h for h in closure[1:] if h.qual in ctx._c10_used and h.qual not in done2]
+        if not todo2:
+            break
+        h = todo2[0]
+        done2.add(h.qual)
+        for r in walk_local(h.node):
+            if isinstance(r, ast.Return) and eng.reached_anywhere(h, r):
+                if r.value is None:
+                    ok, why = False, "returns None"
+                else:
+                    ok, why = _nonneg(ctx, h, r.value)
+                res.ob("R10.2", h.where(r), "%s: `%s`" % (h.short, txt(r.value)[:40] if r.value else "None"), ok, why)
+                if not ok:
+                    res.violation("R10.2", h, r, "%s (a helper of distance) may return a negative value: %s" % (h.short, why),
+                                  construct="%s sign of `%s`" % (h.short, txt(r.value)[:40] if r.value else "None"))
     # R10.5 the value does not depend on the length / sign of a Line's direction vector
     from .c08 import EVEN, Gauge
     n5 = 0
@@ -154,6 +207,29 @@ def run(ctx, res):
                               "distance(%s, %s) depends on the length or sign of the direction vector %s.dv (`%s` is of degree %s, %s "
                               "in it): two representations of the same line give different distances" % (ta, tb, X, txt(r.value)[:70], d, par),
                               construct="distance(%s, %s) gauge %s.dv" % (ta, tb, X))
+    for h in closure[1:]:
+        if h.qual not in ctx._c10_used:
+            continue  # a predicate helper: its result is a classification, not a distance
+        seen5 = set()
+        for argt, sm in eng.summaries_of(h):
+            for X, tX in argt:
+                if X not in h.params or show(tX) != "Line":
+                    continue
+                for r in walk_local(h.node):
+                    if not (isinstance(r, ast.Return) and r.value is not None and id(r) in sm.reached) or (X, id(r)) in seen5:
+                        continue
+                    seen5.add((X, id(r)))
+                    n5 += 1
+                    G = Gauge(h, "", 1, q_text="%s.dv" % X)
+                    d, par = G.g(r.value)
+                    ok = d == 0 and par == EVEN
+                    res.ob("R10.5", h.where(r), "%s vs length/sign of %s.dv" % (h.short, X), ok,
+                           "degree 0 and even in %s.dv" % X if ok else "degree %s, parity %s in %s.dv" % (d, par, X))
+                    if not ok:
+                        res.violation("R10.5", h, r,
+                                      "%s (a helper of distance) depends on the length or sign of the direction vector %s.dv (`%s` is "
+                                      "of degree %s, %s in it): two representations of the same line give different distances"
+                                      % (h.short, X, txt(r.value)[:70], d, par), construct="%s gauge %s.dv" % (h.short, X))
     ctx.require(res, "R10.5", n5, 4, "direction-gauge obligations")
     # R10.3 method forms
     body = repo.cls("GeoBody")
@@ -188,6 +264,10 @@ def run(ctx, res):
     except ImportError:
         res.note("R10.3 polynomial agreement of Point.distance is checked once the algebra engine is present")
     # R10.4 R-CROSS
-    n = check_cross(ctx, res, fi, "R10.4")
+    n = sum(check_cross(ctx, res, f_, "R10.4") for f_ in module_closure(ctx, fi))
     ctx.require(res, "R10.4", n, 1, "normalised cross products in distance()")
+    # R10.6 every classification inside distance() and its helpers is tolerant
+    from ..exact import report_exact
+    k6 = report_exact(ctx, res, "R10.6", closure, "distance()")
+    ctx.require(res, "R10.6", k6, 8, "decision atoms of distance() examined")
     res.undecided_ob("the value equals the minimum Euclidean distance; zero exactly when intersection(a, b) is not None")
